@@ -398,6 +398,17 @@ pub fn replay_pos(opts: &Opts) -> i32 {
         }
         let probe = probe_every > 0 && n % probe_every == 0;
         compare_obs(&mut t, &case, &board, &rec["exp"], !path.is_empty(), probe);
+        // layer S conformance (drift only): the generator's entry list as the model predicts it
+        if let Some(want) = rec.get("sys_entries").and_then(|v| v.as_array()) {
+            let got: Vec<Value> = board.legals().verif_entries().iter().map(|(s, d, p)| json!([s.to_u8(), bb_list(*d), p])).collect();
+            t.inc("sys_entries_compared");
+            if &got != want {
+                t.inc("drift_entries");
+                if t.counts["drift_entries"] <= 3 {
+                    out_line("DRIFT", &json!({"kind": "entries", "case": case, "exp": want, "got": got}));
+                }
+            }
+        }
         if t.samples.len() < 3 && n % 97 == 1 {
             t.samples.push(json!({"case": case, "legals": rec["exp"]["legals"], "st": rec["exp"]["st"]}));
         }
